@@ -1453,7 +1453,7 @@ theorem tie_central_header_inner (ao chs : UInt64) :
   cases hutf : (flags &&& 2048 != 0) <;>
   simp only [hshr, hsys, hm, hdt, pure_bind, hlossy, hcp] <;>
   generalize hpe : parseExtraField _ _ _ = pe <;>
-  generalize hG : Gen.ZipFileData.mk _ _ _ _ _ _ _ _ _ _ _ _ _ _ _ _ _ _ = G <;>
+  generalize hG : Gen.ZipFileData.mk _ _ _ _ _ _ _ _ _ _ _ _ _ _ _ _ _ _ _ _ = G <;>
   (have hx16 := UInt16.toNat_lt xlen
    have hGx : G.extra_field = extra := by rw [← hG]
    have key := tie_parse_extra_field G (by rw [hGx, hextra]; omega)
